@@ -438,6 +438,21 @@ def run_format(rep, prog):
                     continue
                 args = call_args(n)
                 lits = [x for x in walk(args[1]) if x.get("k") == "StringLiteral"] if len(args) > 1 else []
+                if not lits and len(args) > 1:
+                    # a named constant (const / constexpr global or local `const char*` / string initialised with one literal)
+                    for x in walk(args[1]):
+                        if x.get("k") == "DeclRefExpr" and (x.get("ref") or {}).get("dk") == "Var":
+                            g = prog.globals.get(x["ref"].get("name"))
+                            cand = []
+                            if g is not None and g.get("did") == x["ref"].get("did") and "const" in (g.get("t") or "") and isinstance(g.get("init"), dict):
+                                cand = [g["init"]]
+                            else:
+                                from ..model import stable_locals
+                                st = stable_locals(fn) if isinstance(fn.get("body"), dict) else {}
+                                if x["ref"].get("did") in st:
+                                    cand = [st[x["ref"]["did"]]]
+                            for c_ in cand:
+                                lits += [y for y in walk(c_) if y.get("k") == "StringLiteral"]
                 if len(lits) != 1:
                     rep.violation("C10.format-buffer", prog, fn, n, "non-literal format", "format_number called with a format that is not a single string literal: output length cannot be bounded")
                     continue
